@@ -21,6 +21,7 @@ type protoExec struct {
 	n      int
 	unrel  bool
 	healed bool
+	pre    string // the settled state right before an election / attach request (annotation for the oracle)
 }
 
 func (e *protoExec) close() {
@@ -37,7 +38,19 @@ func (e *protoExec) state() string {
 	return strings.Join(parts, " ")
 }
 
+// op runs one operation. For elections and attach requests the settled state before the request is added
+// after " ~pre " - the comparison with the model ignores it (core.firstDiff), the oracle uses it to tell
+// entries a follower *kept* across its truncation from entries it *took* afterwards.
 func (e *protoExec) op(op string) string {
+	e.pre = ""
+	r := e.opInner(op)
+	if e.pre != "" && !strings.HasPrefix(r, "~") {
+		r += " ~pre " + e.pre
+	}
+	return r
+}
+
+func (e *protoExec) opInner(op string) string {
 	f := strings.Fields(op)
 	kvs := c20kv(f)
 	atoi := func(s string) int { v, _ := strconv.Atoi(s); return v }
@@ -77,6 +90,10 @@ func (e *protoExec) op(op string) string {
 		// the model talks about settled states: everything deliverable has been delivered
 		if !e.c.WaitSettled(8 * time.Second) {
 			e.unrel = true
+		}
+		switch f[0] {
+		case "p.lead", "p.elect", "p.electm", "p.add":
+			e.pre = e.state()
 		}
 	}
 	switch f[0] {
@@ -450,11 +467,18 @@ func protoOracle(ops, impl []string, which string) string {
 	swapped := false              // an election with nodes being removed has succeeded
 	prevAck := map[string]int{}   // "leader>follower" -> acknowledged offset in the previous state
 	prevTerm := map[int]int{}     // node -> term in the previous state
+	preLog := map[int][]string{}  // node -> its log right before the last election / attach request
 	for i, o := range ops {
 		if i >= len(impl) {
 			break
 		}
 		out := impl[i]
+		if j := strings.Index(out, " ~pre "); j >= 0 {
+			for n, s := range parseProtoState(out[j+6:]) {
+				preLog[n] = s.log
+			}
+			out = out[:j]
+		}
 		if strings.HasPrefix(out, "~") {
 			return "" // the rest is not comparable (snapshot transfer or unsettled cluster)
 		}
@@ -615,6 +639,29 @@ func protoOracle(ops, impl []string, which string) string {
 								if k < len(st[l].log) {
 									lh = st[l].log[k]
 								}
+								// kept or taken? an entry the follower already held before the leader attached it
+								// was left in place by the truncation (C03); anything else was appended since (C03, C04)
+								if pl, ok := preLog[fo]; ok && k < len(pl) && pl[k] == st[fo].log[k] {
+									if !want("C03") {
+										continue
+									}
+									et, _ := strconv.Atoi(st[fo].log[k][:strings.Index(st[fo].log[k], ":")])
+									why := ""
+									hasTerm, lastLower := false, -1
+									for o2, x := range st[l].log {
+										xt, _ := strconv.Atoi(x[:strings.Index(x, ":")])
+										if xt == et {
+											hasTerm = true
+										}
+										if xt < et {
+											lastLower = o2
+										}
+									}
+									if !hasTerm && lastLower >= k {
+										why = fmt.Sprintf(" [the leader holds no entry of term %d; its last entry of a lower term is at offset %d, and the follower was truncated by offset to there]", et, lastLower)
+									}
+									return fmt.Sprintf("op %d: n%d follows term %d and has acknowledged offset %d, but still holds %s at offset %d where the leader n%d holds %s: the truncation left it in place%s", i, fo, st[l].term, st[l].cursors[fo], st[fo].log[k], k, l, lh, why)
+								}
 								return fmt.Sprintf("op %d: n%d follows term %d but holds %s at offset %d where the leader n%d of that term holds %s: it took entries on behalf of another term", i, fo, st[l].term, st[fo].log[k], k, l, lh)
 							}
 						}
@@ -722,6 +769,24 @@ func genProtoDirected(rng *rand.Rand, which string, i int) []string {
 		return []string{"p.init n=3", "p.elect 0 1", fmt.Sprintf("p.write 0 %d", 10+i), "p.settle", "p.cut 0", fmt.Sprintf("p.write 0 %d", 100+i), fmt.Sprintf("p.write 0 %d", 200+i),
 			"p.elect 1 2", fmt.Sprintf("p.write 1 %d", 300+i), "p.settle", "p.state", "p.heal 0", "p.settle", "p.state", fmt.Sprintf("p.write 1 %d", 400+i), "p.settle", "p.state",
 			"p.elect 2 3", "p.settle", "p.state", "p.read 2"}
+	}
+	if which == "C03" && i%5 == 4 {
+		// a deposed leader whose uncommitted tail is of a term the next leader has no entry of, while that
+		// leader holds (re-committed) entries of a lower term further up: `getHighestEntryOfTerm` answers with
+		// an entry of the lower term and the follower is cut by offset (known finding D-44 when the follower's
+		// log is longer than that offset; ErrOffsetOutOfBounds and a failed election when it is not)
+		k, m := 1+rng.Intn(3), 1+rng.Intn(4)
+		out := []string{"p.init n=3", "p.elect 0 1", fmt.Sprintf("p.write 0 %d", 10+i), "p.settle", "p.cut 0"}
+		for j := 0; j < k; j++ {
+			out = append(out, fmt.Sprintf("p.write 0 %d", 100+10*i+j))
+		}
+		out = append(out, "p.elect 1 2", "p.settle", "p.cut 2")
+		for j := 0; j < m; j++ {
+			out = append(out, fmt.Sprintf("p.write 1 %d", 2000+10*i+j))
+		}
+		out = append(out, "p.cut 1", "p.heal 0", "p.heal 2", "p.elect 0 3", fmt.Sprintf("p.write 0 %d", 30000+i), "p.settle", "p.state",
+			"p.heal 1", "p.elect 0 4", "p.settle", "p.state", "p.read 0")
+		return out
 	}
 	switch which {
 	case "C04":
